@@ -1940,6 +1940,23 @@ namespace jsoncons {
                             return static_cast<int>(storage_kind()) - static_cast<int>(rhs.storage_kind());
                     }
                     break;
+                case json_storage_kind::half_float:
+                    switch (rhs.storage_kind())
+                    {
+                        case json_storage_kind::half_float:
+                        {
+                            const double x = binary::decode_half(cast<half_storage>().value());
+                            const double y = binary::decode_half(rhs.cast<half_storage>().value());
+                            return x == y ? 0 : (x < y ? -1 : 1);
+                        }
+                        case json_storage_kind::const_json_ref:
+                            return compare(rhs.cast<const_json_ref_storage>().value());
+                        case json_storage_kind::json_ref:
+                            return compare(rhs.cast<json_ref_storage>().value());
+                        default:
+                            return static_cast<int>(storage_kind()) - static_cast<int>(rhs.storage_kind());
+                    }
+                    break;
                 default:
                     JSONCONS_UNREACHABLE();
                     break;
